@@ -356,3 +356,14 @@ Example obs_replace_example :
   eval_obs [] [] (FSplitLens [10]) (s "/*" ++ (s "a b" ++ [10] ++ s " c") ++ s "*/") = OL [5; 4]%nat
   /\ eval_obs [] [] (FSplitLens [10]) (s "/*" ++ (s "};<" ++ [10] ++ s "if") ++ s "*/") = OL [5; 4]%nat.
 Proof. vm_compute. split; reflexivity. Qed.
+
+(* why the string of CheckPreprocessorInclude.run is "the string of an #include" (reviewed_not_content): the only test that
+   rule makes on an IDENTIFIER spelling are `== "include"` (the directive name) and `== "h"` (the extension inside <...>).  A rule that starts treating another
+   directive's string the same way (#import ...) changes this table and breaks the theorem. *)
+Definition include_guard_literals : list (option str) :=
+  List.map (fun e : entry => let '(_, _, _, f) := e in match f with FEqLit l => Some l | _ => None end)
+    (filter (fun e : entry => let '(file, fn, kinds, _) := e in
+               String.eqb file "norminette/rules/check_preprocessor_include.py" && String.eqb fn "CheckPreprocessorInclude.run"
+               && match kinds with [k] => String.eqb k "IDENTIFIER" | _ => false end) value_reads).
+Theorem include_string_guarded : include_guard_literals = [Some (s "h"); Some (s "include")].
+Proof. vm_compute. reflexivity. Qed.
